@@ -27,7 +27,7 @@ Proof. exact memory_rejects. Qed.
 Theorem C13_memory_rooms_rejects : forall h w ys xs cs nb ne own, In 0 cs \/ Z.of_nat (length cs) < 2 \/ nb < 1 \/ ne < 2 ->
   reset_memory_rooms h w ys xs cs nb ne own = Raise ValueError.
 Proof. exact memory_rooms_rejects. Qed.
-Theorem C13_rooms_rejects : forall h w ys xs own, nodupb ys = false \/ nodupb xs = false -> reset_rooms h w ys xs own = Raise ValueError.
+Theorem C13_rooms_rejects : forall h w ys xs own, gapsb ys = false \/ gapsb xs = false -> reset_rooms h w ys xs own = Raise ValueError.
 Proof. exact rooms_rejects. Qed.
 (* no reset function ever raises anything but ValueError through its random draws: a draw with an empty range is a ValueError *)
 Theorem C13_draws_raise_only_ValueError : forall g n lo hi k x,
